@@ -375,6 +375,12 @@ func (r *Reader) readRemoteNodeContent(ctx context.Context, node RemoteNode) ([]
 
 	r.debugf("checking cache for %q in %q\n", node.Location(), cache.Location())
 	cachedBytes, err := cache.Read()
+	// Only a cached copy whose checksum is the one the user approved is
+	// trusted; anything else is treated as if there was no cache
+	if err == nil && checksum(cachedBytes) != cache.ReadChecksum() {
+		r.debugf("cached copy does not match its checksum: ignoring the cache\n")
+		cachedBytes, err = nil, os.ErrNotExist
+	}
 	switch {
 	// If the cache doesn't exist, we need to download the file
 	case errors.Is(err, os.ErrNotExist):
